@@ -158,10 +158,10 @@ Proof.
   - rewrite (Hents t Ht). exact Hv.
 Qed.
 
-(* the queue is carried unchanged through the root lock, root store and root unlock steps ... *)
+(* the queue is carried unchanged through the root lock, root load, root store and root unlock steps ... *)
 Lemma a_notify_carried s i a tabs wr c rg dn :
   nth_error (s_actors s) i = Some a -> a_kind a = KWriter tabs wr c rg dn ->
-  a_pc a = PCommitIdx \/ a_pc a = PRootLocked \/ a_pc a = PRootStored ->
+  a_pc a = PCommitIdx \/ a_pc a = PRootLocked \/ a_pc a = PCommitLoaded \/ a_pc a = PRootStored ->
   exists a', nth_error (s_actors (step s i)) i = Some a' /\ a_notify a' = a_notify a /\ a_kind a' = a_kind a /\
              s_closed (step s i) = s_closed s.
 Proof.
@@ -170,9 +170,10 @@ Proof.
   destruct (enabled s i) eqn:He.
   2:{ rewrite step_disabled by exact He. exists a. auto. }
   unfold step. rewrite He, Ha, Hk. cbn [negb].
-  destruct Hpc as [Hpc|[Hpc|Hpc]]; rewrite Hpc.
+  destruct Hpc as [Hpc|[Hpc|[Hpc|Hpc]]]; rewrite Hpc.
   - unfold set_actor. cbn [s_actors s_closed]. eexists. split; [apply actor_after; exact Hl|]. cbn. auto.
-  - destruct (merge_root (a_locks a) (a_entries a) (s_root s) 0) as [root closing].
+  - unfold set_actor. cbn [s_actors s_closed]. eexists. split; [apply actor_after; exact Hl|]. cbn. auto.
+  - destruct (merge_root (a_locks a) (a_entries a) (a_cur a) 0) as [root closing].
     unfold set_actor. cbn [s_actors s_closed]. eexists. split; [apply actor_after; exact Hl|]. cbn. auto.
   - unfold set_actor. cbn [s_actors s_closed]. eexists. split; [apply actor_after; exact Hl|]. cbn. auto.
 Qed.
